@@ -419,7 +419,7 @@ func validAgainst(s *ast.Schema, op string) (bool, string) {
 }
 
 func c15Options(stream string) gen.RichOptions {
-	o := gen.RichOptions{MaxWrap: 7, IfaceOfIface: true, Directives: true, RenamedRoots: true, Descriptions: true, Deprecations: true}
+	o := gen.RichOptions{MaxWrap: 7, OddNames: true, IfaceOfIface: true, Directives: true, RenamedRoots: true, Descriptions: true, Deprecations: true}
 	switch stream {
 	case "defaults":
 		o.ArgDefaults, o.InputDefaults = true, true
